@@ -35,6 +35,7 @@ def main():
     ap.add_argument("--name", default="")
     ap.add_argument("--no-suite", action="store_true", help="phase A only: demos + quick check, nothing is filed under seeded/")
     ap.add_argument("--jobs", default="")
+    ap.add_argument("--phase-b", default="", help="JSON printed by an earlier --no-suite run: only the test suite is run (with the patch) and the change is filed")
     a = ap.parse_args()
     name = a.name or f"{a.pid}-{a.i}"
     patch = os.path.join(a.agent_dir, f"patch{a.i}.diff")
@@ -48,21 +49,29 @@ def main():
         assert rc == 0, out
         rec["base_commit"] = sh("git -C /repo rev-parse --short HEAD")[1].strip()
         env = dict(os.environ, PYTHONPATH=f"{wt}/src", JAX_PLATFORMS="cpu", WANDB_MODE="disabled")
-        shutil.copy(demo, os.path.join(wt, "demo.py"))
-        rc0, out0 = sh("/venv/bin/python demo.py", cwd=wt, env=env)
-        rec["ran"].append({"cmd": "demo on clean tree", "rc": rc0})
-        rc, out = sh(f"git apply {patch}", cwd=wt)
-        rec["ran"].append({"cmd": "git apply patch", "rc": rc, "out": out[-300:]})
-        assert rc == 0, out
-        rc1, out1 = sh("/venv/bin/python demo.py", cwd=wt, env=env)
-        rec["ran"].append({"cmd": "demo with patch", "rc": rc1, "tail": out1[-400:]})
+        prev = json.load(open(a.phase_b)) if a.phase_b else None
+        if prev:
+            rec["ran"] = [r for r in prev["ran"] if not r["cmd"].startswith("pytest")]
+            rc0 = [r["rc"] for r in rec["ran"] if r["cmd"] == "demo on clean tree"][0]
+            rc1 = [r["rc"] for r in rec["ran"] if r["cmd"] == "demo with patch"][0]
+            rc, out = sh(f"git apply {patch}", cwd=wt)
+            assert rc == 0, out
+        else:
+            shutil.copy(demo, os.path.join(wt, "demo.py"))
+            rc0, out0 = sh("/venv/bin/python demo.py", cwd=wt, env=env)
+            rec["ran"].append({"cmd": "demo on clean tree", "rc": rc0})
+            rc, out = sh(f"git apply {patch}", cwd=wt)
+            rec["ran"].append({"cmd": "git apply patch", "rc": rc, "out": out[-300:]})
+            assert rc == 0, out
+            rc1, out1 = sh("/venv/bin/python demo.py", cwd=wt, env=env)
+            rec["ran"].append({"cmd": "demo with patch", "rc": rc1, "tail": out1[-400:]})
         tests = "tests" if a.full else " ".join(t for t in a.tests.split(",") if t)
         t0 = time.time()
         rct, outt = (-1, "skipped") if a.no_suite else sh(f"/venv/bin/python -m pytest -q -p no:cacheprovider --timeout=1800 -n 5 {tests}", cwd=wt, env=env)
         rec["ran"].append({"cmd": f"pytest {tests} (with patch)", "rc": rct, "tail": outt.strip().splitlines()[-1] if outt.strip() else "", "failed": [l for l in outt.splitlines() if l.startswith("FAILED") or "Timeout" in l][:5], "wall": round(time.time() - t0)})
         checks = [c for c in (a.checks or a.pid).split(",") if c]
-        caught = {}
-        for c in checks:
+        caught = dict(prev["checks_quick"]) if prev else {}
+        for c in ([] if prev else checks):
             if not os.path.exists(os.path.join(V, "checks", f"{c}.py")):
                 caught[c] = "no check yet"
                 continue
